@@ -77,7 +77,7 @@ package websvc
 //@   property C19
 //@   requires r != nil && r.In != nil && r.Out != nil && r.In.Header != nil && r.Out.Header != nil && r.In.Header != r.Out.Header && apiURL != nil
 //@   modifies http.Request.URL, http.Request.Host, mapof(r.Out.Header)
-//@   ensures peer-address-survives-hop-by-hop-removal: has(r.Out.Header, "X-Connecting-Ip") == has(r.In.Header, "X-Connecting-Ip") &&
+//@   ensures peer-address-survives-hop-by-hop-removal: has(r.In.Header, "X-Connecting-Ip") ==> has(r.Out.Header, "X-Connecting-Ip") &&
 //@             r.Out.Header["X-Connecting-Ip"] == r.In.Header["X-Connecting-Ip"]
-//@   ensures request-id-survives-hop-by-hop-removal: has(r.Out.Header, "X-Request-Id") == has(r.In.Header, "X-Request-Id") &&
+//@   ensures request-id-survives-hop-by-hop-removal: has(r.In.Header, "X-Request-Id") ==> has(r.Out.Header, "X-Request-Id") &&
 //@             r.Out.Header["X-Request-Id"] == r.In.Header["X-Request-Id"]
